@@ -171,6 +171,17 @@ func (d *disconnectHandler) handleDisconnect() {
 
 	// Only handle if we're the leader
 	if !d.election.isLeader.Load() {
+		// A grace period that began while this instance led keeps running when it
+		// loses leadership in another way, and demotes it if it leads again when the
+		// period is over. The period counts from the latest disconnect notification,
+		// also when that notification arrives between two terms.
+		if d.timer != nil {
+			d.timer.Stop()
+			d.disconnectedAt = time.Now()
+			d.timer = time.AfterFunc(d.gracePeriod(), func() {
+				d.handleGracePeriodExpired()
+			})
+		}
 		return
 	}
 
@@ -206,6 +217,18 @@ func (d *disconnectHandler) handleDisconnect() {
 	d.timer = time.AfterFunc(gracePeriod, func() {
 		d.handleGracePeriodExpired()
 	})
+}
+
+// gracePeriod returns the configured disconnect grace period or its default.
+func (d *disconnectHandler) gracePeriod() time.Duration {
+	gracePeriod := d.election.cfg.DisconnectGracePeriod
+	if gracePeriod == 0 {
+		gracePeriod = 3 * d.election.cfg.HeartbeatInterval
+		if gracePeriod < 5*time.Second {
+			gracePeriod = 5 * time.Second
+		}
+	}
+	return gracePeriod
 }
 
 // handleGracePeriodExpired is called when grace period expires
